@@ -167,7 +167,7 @@ PROPS["C12"] = _std(
     "The space is finite and enumerated completely for each built configuration.",
     "DESIGN.md section 4, C12",
     "complete enumeration of all table entries and constants against their definitions in the reference model",
-    lambda tier: [R("simd"), R("simd", dispatch="serial"), R("serial32"), R("avx512")] if tier == "quick" else
+    lambda tier: [R("simd"), R("simd", dispatch="serial"), R("serial32"), R("serial64"), R("fiat64"), R("fiat32"), R("avx512")] if tier == "quick" else
                  [R("simd"), R("simd", dispatch="serial"), R("simd", "rel-notables"), R("serial32"), R("serial64"), R("fiat64"), R("fiat32"),
                   R("avx512"), R("avx512", dispatch="avx2"), R("avx512", dispatch="serial")],
     exhaustive=True,
